@@ -16,11 +16,13 @@ def build(tier, ctx):
     pres = ["canonical", "reversed", "rotated"]
     if tier == "quick":
         defs = pvcommon.scope_defs(ctx["repo"], 5)
+        defs += pvcommon.extended_defs(5)
         for nm, d in defs:
             tasks.append({"name": nm, "defn": dsl.to_list(d), "k": 2,
                           "pres": pres, "mode": "c01"})
     else:
         defs = pvcommon.scope_defs(ctx["repo"], 7)
+        defs += pvcommon.extended_defs(6)
         for nm, d in defs:
             tasks.append({"name": nm, "defn": dsl.to_list(d), "k": 2,
                           "pres": pres, "mode": "c01"})
@@ -54,8 +56,10 @@ def build(tier, ctx):
 
 def collect(tier, tasks, results, ctx):
     bounds = {"tier": tier,
-              "definitions": "F_5 + 63 corpus" if tier == "quick"
-              else "F_7 + 63 corpus; k=3 for loop definitions of F_5",
+              "definitions": "F_5 + 63 corpus + extended (bunched forks "
+              "<= 5 events, staged merges)" if tier == "quick"
+              else "F_7 + 63 corpus + extended (bunched forks <= 6 events, "
+              "staged merges); k=3 for loop definitions of F_5",
               "presentations": ["canonical", "reversed", "rotated"],
               "loop_bound_k": 2,
               "incomplete_evidence": "every proper non-empty subset of "
